@@ -214,6 +214,9 @@ func genC01(seed uint64, idx int) *Plan {
 		p.Resume = false
 	}
 	p.NoCCS = idx%4 == 1
+	if idx%4 == 3 && p.Forward {
+		p.SlowWriteReturnMs = []int{1, 20, 300}[(idx/4)%3]
+	}
 	return &Plan{Kind: "live", Seed: seed, Live: p}
 }
 
